@@ -129,7 +129,7 @@ def _check_attr_use(ctx, f, attr_node, par):
             return True
         if isinstance(p, ast.Subscript) and p.value is attr_node and isinstance(p.slice, ast.Slice):
             return True
-        if isinstance(p, ast.Call) and norm(p.func) == "_check_dims":
+        if isinstance(p, ast.Call) and ctx.model.is_call_to(f, p, "_array_types._check_dims"):
             return True
         ctx.bad("C17.1", f, p if p is not None else attr_node, f"`{short(p, 60)}`: the shape is used other than by len(), slicing or the per-axis check")
         return None
